@@ -353,6 +353,12 @@ def sb2b(model):
                 and isinstance(n.targets[0], ast.Name):
             tokv = n.targets[0].id
     if tokv is None:
+        # the token whose text is compared with '[' inside the branch
+        for n in ast.walk(br):
+            if isinstance(n, ast.Compare) and len(n.ops) == 1 and T.is_const(n.comparators[0], '[') \
+                    and isinstance(n.left, ast.Attribute) and n.left.attr == 'txt' and isinstance(n.left.value, ast.Name):
+                tokv = n.left.value.id
+    if tokv is None:
         r.undec(br, 'token variable not recognised')
         r.instances = 4
         return r
@@ -745,6 +751,19 @@ def _json_int_source(model, e, depth=3):
                 s = _json_int_source(model, v, depth - 1)
                 if s is not None:
                     return s
+        # a parameter: what the call sites pass
+        fn = getattr(e, '_fn', None)
+        if fn is not None and not isinstance(fn.node, ast.Lambda) and e.id in fn.params:
+            from ..callgraph import callgraph
+            k = fn.params.index(e.id)
+            if fn.cls is not None and fn.outer is None:
+                k -= 1
+            for c in callgraph(model).callers.get(fn.qname, []):
+                a = c.args[k] if 0 <= k < len(c.args) else next((kw.value for kw in c.keywords if kw.arg == e.id), None)
+                if a is not None and not isinstance(a, ast.Starred):
+                    s = _json_int_source(model, a, depth - 1)
+                    if s is not None:
+                        return s
     return None
 
 
@@ -1322,6 +1341,58 @@ def sbl1(model):
 
 
 # ----------------------------------------------------------------------------- LT1
+def _lookahead_restores_lang(model):
+    """expand_arguments: no skip_space(); the skipping loop collects LanguageTokens in a list L; the branches
+    for an absent star and an absent optional argument call buf.back(L)"""
+    f = model.func('parser.Parser.expand_arguments')
+    if any(isinstance(n, ast.Call) and T.call_name(n) == 'skip_space' for n in iter_scope(f.node)):
+        return False
+    coll = None
+    for lp in iter_scope(f.node):
+        if isinstance(lp, ast.While) and any(isinstance(c, ast.Call) and T.call_name(c) == 'next' for c in ast.walk(lp)):
+            for n in ast.walk(lp):
+                if isinstance(n, ast.Call) and T.call_name(n) == 'append' and isinstance(n.func.value, ast.Name) \
+                        and any('LanguageToken' in unparse(e) for e, t in guards.facts(n) if t):
+                    coll = n.func.value.id
+    if coll is None:
+        return False
+    need = 0
+    have = 0
+    scopes = [(f, coll)]
+    # the list may be handed to a helper that reads the argument
+    for c in iter_scope(f.node):
+        if isinstance(c, ast.Call) and any(isinstance(a, ast.Name) and a.id == coll for a in c.args):
+            rc = model.resolve_call(c)
+            if rc and rc[0] == 'func' and not isinstance(rc[1].node, ast.Lambda):
+                g = rc[1]
+                params = g.params[1:] if g.cls is not None and g.outer is None else g.params
+                k = next(i for i, a in enumerate(c.args) if isinstance(a, ast.Name) and a.id == coll)
+                if k < len(params):
+                    scopes.append((g, params[k]))
+    for fn_, coll in scopes:
+      for n in iter_scope(fn_.node):
+        if isinstance(n, ast.If):
+            fs = []
+            guards.split_fact(n.test, True, fs)
+            if any(isinstance(e, ast.Compare) and len(e.ops) == 1 and isinstance(e.ops[0], ast.Eq)
+                   and isinstance(e.comparators[0], ast.Constant) and e.comparators[0].value in ('*', '[')
+                   and unparse(e.left).endswith('.txt') for e, t in fs):
+                need += 1
+                # the branch in which the argument is absent: the else part, or (if the then part always
+                # leaves) the statements behind the if
+                rest = list(n.orelse)
+                if not rest and always_exits(n.body):
+                    par = getattr(n, '_parent', None)
+                    for fld in ('body', 'orelse'):
+                        seq = getattr(par, fld, None)
+                        if isinstance(seq, list) and n in seq:
+                            rest = seq[seq.index(n) + 1:]
+                if any(isinstance(c, ast.Call) and T.call_name(c) == 'back' and c.args and unparse(c.args[0]) == coll
+                       for s_ in rest for c in ast.walk(s_)):
+                    have += 1
+    return need >= 2 and have == need
+
+
 def lt1(model):
     r = RuleResult('LT1', 'what Buffer.skip_space() skips is dropped for good: the classes that '
                    'is_space() accepts carry no state.  A LanguageToken does (it opens or closes a '
@@ -1334,9 +1405,13 @@ def lt1(model):
         r.instances = 1
         return r
     harmless = {'SpaceToken', 'CommentToken', 'ActionToken', 'VoidToken'}
+    restored = _lookahead_restores_lang(model)
     for nm in names:
         if nm in harmless:
             r.ok(f.node, '%s carries no state' % nm, sample=False)
+        elif nm == 'LanguageToken' and restored:
+            r.ok(f.node, 'LanguageToken is skippable, and the look-ahead of expand_arguments for a star / optional '
+                 'argument puts the language tokens it skipped back when the argument is absent', nontrivial=True)
         else:
             r.fail(f.node, 'is_space() accepts %s: skip_space() behind a macro without arguments, or in '
                    'front of an optional argument that is not there, drops the token that closes a '
